@@ -18,9 +18,17 @@ def setup() -> int:
     errs = translators.generate_all(core.REPO, core.COQ, fallback=True)
     for e in errs:
         print("translator:", e)
-    ok, log = core.make([], timeout=3000)
+    ok, log = core.make(["-k"], timeout=3000)
     print(log[-3000:])
-    return 0 if ok else 1
+    if not ok:
+        # a property file that does not build is reported by that property's own check (which rebuilds its
+        # targets); the setup only fails when the shared model, which every check needs, is missing
+        import os
+        need = [os.path.join(core.COQ, "Model", "Harness.vo"), os.path.join(core.COQ, "Proofs", "Abs.vo")]
+        missing = [p for p in need if not os.path.exists(p)]
+        print("setup: some targets failed to build (see above); shared model " + ("MISSING: %s" % missing if missing else "is built"))
+        return 1 if missing else 0
+    return 0
 
 
 def main() -> int:
